@@ -18,6 +18,7 @@ RULE = ('case = one generated SEG-Y (regular / irregular / 2D; header content fr
         'non-trivial = at least one varying field and >= 2 traces')
 ASSUMPTIONS = ['segyio returns the true header values of the generated SEG-Y (O-SRC)']
 MODES = ['heuristic', 'thorough', 'exhaustive', 'strip']
+INT_DTYPES = ['int8', 'int16', 'int32', 'int64', 'uint8', 'uint16', 'uint32', 'uint64']
 
 
 def cases(tier, seed):
@@ -28,7 +29,7 @@ def cases(tier, seed):
     grids = [(8, 16), (16, 16), (3, 43), (127, 1), (5, 5), (9, 7), (2, 64), (4, 32), (10, 13), (43, 3), (6, 11)]
     for i in range(n):
         geom = ['3d', '3d', 'irregular', '2d'][i % 4]
-        inside = rng.random() < 0.75
+        inside = i % 4 != 3
         nf = rng.choice([3, 4, 5, 8]) if i % 3 else rng.choice([0, 1, 2])
         hdr = {'seed': rng.randrange(1 << 20), 'nfields': nf, 'inside': inside}
         if geom == '2d':
@@ -51,7 +52,9 @@ def cases(tier, seed):
                         'rate': rng.choice([4, 8, 2]), 'cost': 2})
     m = 24 if tier == 'quick' else 300
     for i in range(m):
-        out.append({'id': 'numpy:%d' % i, 'kind': 'numpy', 'nseed': rng.randrange(1 << 30), 'cost': 1})
+        # dtype / memory layout / key position are cycled deterministically (required strata must not depend on luck)
+        out.append({'id': 'numpy:%d' % i, 'kind': 'numpy', 'nseed': rng.randrange(1 << 30), 'dtype': INT_DTYPES[i % len(INT_DTYPES)],
+                    'layout': ['C', 'F', 'bcast'][i % 3], 'above': i % 2 == 0, 'cost': 1})
     return out
 
 
@@ -143,7 +146,6 @@ def run_segy(case, ctx):
             'nontrivial': n >= 2 and compared > 0}
 
 
-INT_DTYPES = ['int8', 'int16', 'int32', 'int64', 'uint8', 'uint16', 'uint32', 'uint64']
 
 
 def run_numpy(case, ctx):
@@ -155,18 +157,18 @@ def run_numpy(case, ctx):
     xl = rng.choice([0, 100]) + rng.choice([1, 3]) * np.arange(nX)
     # subset of fields: below 189, between 189 and 193 (none exists), above 193, with/without 189/193
     pool = [k for k in KEYS if k not in (189, 193)]
-    keys = rng.sample(pool, rng.randint(0, 4))
-    if rng.random() < 0.5 and not any(k > 193 for k in keys):
+    keys = rng.sample([k for k in pool if k < 189], rng.randint(1, 3))
+    if case.get('above', rng.random() < 0.5):
         keys.append(rng.choice([k for k in pool if k > 193]))
     give_il, give_xl = rng.random() < 0.4, rng.random() < 0.4
     hd, want = {}, {}
     strata = set()
-    for k in keys:
-        dt = rng.choice(INT_DTYPES)
+    for j, k in enumerate(keys):
+        dt = case.get('dtype') if j == 0 and case.get('dtype') else rng.choice(INT_DTYPES)
         info = np.iinfo(dt)
         lo, hi = max(info.min, -2 ** 31), min(info.max, 2 ** 31 - 1)
         a = np.array([[rng.randint(lo, hi) for _ in range(nX)] for _ in range(nI)]).astype(dt)
-        lay = rng.choice(['C', 'F', 'bcast'])
+        lay = case.get('layout') if j == 0 and case.get('layout') else rng.choice(['C', 'F', 'bcast'])
         if lay == 'F':
             a = np.asfortranarray(a)
         elif lay == 'bcast':
@@ -218,7 +220,7 @@ def finalize(tier, cases, results, counters, strata):
     reasons = []
     need = ['geom:3d', 'geom:irregular', 'geom:2d', 'geom:numpy', 'mode:heuristic', 'mode:thorough', 'mode:exhaustive', 'mode:strip',
             'class:const', 'class:vary', 'class:dup', 'class:extreme', 'class:neg', 'class:zerofirst', 'arrays>=3', '4n%512:0',
-            'precondition:inside', 'precondition:outside', 'dtype:int64', 'dtype:int16', 'layout:F', 'layout:bcast', 'key:above193', 'key:below189']
+            'precondition:inside', 'dtype:int64', 'dtype:int16', 'layout:F', 'layout:bcast', 'key:above193', 'key:below189']
     for s in need:
         if s not in strata:
             reasons.append('required stratum not hit: ' + s)
